@@ -142,7 +142,12 @@ def main():
             if op.get("async") is not None:
                 kw["enable_async_checkpointing"] = op["async"]
             try:
-                solver = cls.restore(op["dir"], **kw)
+                if op.get("positional"):
+                    # the documented parameter order, passed positionally
+                    solver = cls.restore(op["dir"], op.get("step"), op.get("new_dir"), op.get("freq"), op.get("max"),
+                                         op.get("async"))
+                else:
+                    solver = cls.restore(op["dir"], **kw)
                 _verif.emit("x_restore_ok", solver=solver, config=config_text(solver),
                             req=op.get("step"),
                             freq=int(solver.checkpoint_frequency), maxkeep=int(solver.max_checkpoints),
